@@ -1117,6 +1117,8 @@ class DestHandler:
             and not self._checksum_verify()
         ):
             # The fault was already declared by the checksum verification.
+            if self._params.completion_disposition == CompletionDisposition.CANCELED:
+                return False
             if (
                 self.cfg.default_fault_handlers.get_fault_handler(
                     ConditionCode.FILE_CHECKSUM_FAILURE
@@ -1156,11 +1158,24 @@ class DestHandler:
         ):
             file_delivery_complete = True
         else:
-            crc32 = self.user.vfs.calculate_checksum(
-                self._params.checksum_type,
-                self._params.fp.file_name,
-                self._params.fp.progress,
-            )
+            try:
+                crc32 = self.user.vfs.calculate_checksum(
+                    self._params.checksum_type,
+                    self._params.fp.file_name,
+                    self._params.fp.progress,
+                )
+            except FileNotFoundError:
+                # The destination file does not exist, for example because its creation was rejected
+                # and the filestore rejection fault was ignored. Nothing can be verified.
+                if (
+                    self._params.finished_params.file_status
+                    != FileStatus.DISCARDED_FILESTORE_REJECTION
+                ):
+                    self._params.finished_params.file_status = (
+                        FileStatus.DISCARDED_FILESTORE_REJECTION
+                    )
+                    self._declare_fault(ConditionCode.FILESTORE_REJECTION)
+                return False
             if crc32 == self._params.fp.crc32:
                 file_delivery_complete = True
             else:
